@@ -4,7 +4,7 @@
    input set (which is the running call's set while a call runs), or still
    pending in a producer the buffer has not finished iterating.  And nothing
    else is ever held: the function only receives submitted arguments. *)
-From Coq Require Import List Arith NArith Bool Lia ZifyBool ZifyNat ZifyN.
+From Coq Require Import List Arith NArith Bool Lia ZifyBool ZifyNat ZifyN Permutation.
 Import ListNotations.
 Require Import Aiuti.Buffer.
 
@@ -254,7 +254,13 @@ Proof.
   intros E1 E2 E3 [H1 H2 H3 H4 H5 H6 H8 H7]. constructor; unfold off in *; rewrite ?E1, ?E2, ?E3; auto.
 Qed.
 
-(* ---- the invariant on states, and what every helper guarantees ---------------- *)
+(* ---- the invariant on states, and what every helper guarantees ----------------
+   The walk through the helpers of Buffer.step is done ONCE, for an arbitrary
+   predicate P over (ghost history, the round's input set, the producers the
+   buffer still holds) that is preserved by the six elementary moves: permute
+   the producers, load, deliver, put, feed, touch an unrelated ghost field.
+   Core (this file), the counting invariant (exactly-once) and the per-producer
+   invariant (wait barrier) are instances. *)
 Definition got_of (g : getting) : list prod := match g with GGot p => [p] | _ => [] end.
 Definition dprods (d : daemon) : list prod :=
   match d with DGather _ ld g => ld ++ got_of g | DLoadOne _ p => [p] | _ => [] end.
@@ -262,12 +268,8 @@ Definition cur_ins (d : daemon) : list nat :=
   match d with DGather i _ _ | DAwait i _ | DLoadOne i _ | DRun i => i | _ => [] end.
 Definition prods (s : state) : list prod := q s ++ dprods (dm s).
 
-Definition Inv (s : state) : Prop := is_dead s = false -> Core (gh s) (cur_ins (dm s)) (prods s).
-
 Definition starts_ok (r : state * list obs) : Prop :=
   forall c set t, In (FnStart c set t) (snd r) -> incl set (off (gh (fst r))).
-Definition Post (r : state * list obs) : Prop :=
-  is_dead (fst r) = false /\ Core (gh (fst r)) (cur_ins (dm (fst r))) (prods (fst r)) /\ starts_ok r.
 
 Lemma no_starts s : starts_ok (s, []).
 Proof. intros c set t []. Qed.
@@ -277,128 +279,14 @@ Lemma release_facts s :
   dm (fst r) = dm s /\ q (fst r) = q s /\ unfinished (fst r) = unfinished s /\
   g_offered (gh (fst r)) = g_offered (gh s) /\ g_loaded (gh (fst r)) = g_loaded (gh s) /\
   g_delivered (gh (fst r)) = g_delivered (gh s) /\
-  (forall c set t, ~ In (FnStart c set t) (snd r)).
+  (forall c set t, ~ In (FnStart c set t) (snd r)) /\ seen (fst r) = seen s.
 Proof.
   unfold release; cbn. repeat split. intros c set t H. apply in_map_iff in H as (w & E & _). discriminate.
-Qed.
-
-Lemma run_func0_post s ins : Core (gh s) ins (q s) -> Post (run_func0 s ins).
-Proof.
-  intros HC. unfold run_func0. destruct ins as [|x r].
-  - pose proof (release_facts s) as F. destruct (release s) as [s1 o]. cbn [fst snd] in F.
-    destruct F as (F1 & F2 & F3 & F4 & F5 & F6 & F7).
-    unfold Post; cbn [fst snd]. split; [reflexivity|]. split.
-    + unfold prods; cbn. rewrite app_nil_r, F2. eapply Core_ext; eauto.
-    + intros c set t H. exfalso. eapply F7; eauto.
-  - unfold Post; cbn [fst snd]. split; [reflexivity|]. split.
-    + unfold prods; cbn. rewrite app_nil_r. exact HC.
-    + intros c set t [H|[]]. inversion H; subst. apply (c_ins _ _ _ HC).
-Qed.
-
-Lemma in_app_swap {A} (a b : list A) x : In x (a ++ b) <-> In x (b ++ a).
-Proof. rewrite !in_app_iff. tauto. Qed.
-
-Lemma continue_round_post s ins ld : Core (gh s) ins (q s ++ ld) -> Post (continue_round s ins ld).
-Proof.
-  intros HC. unfold continue_round.
-  set (u := unfinished s - length (q s)).
-  destruct (load_all (ld ++ q s)) as [[rem ys] fs] eqn:El.
-  assert (HC1 : Core (gh_load (gh s) ys fs) (set_addl ys ins) rem).
-  { apply (Core_load (gh s) ins [] (ld ++ q s) rem ys fs); [|exact El].
-    cbn [app]. eapply Core_perm; [|exact HC]. intros p. apply in_app_swap. }
-  set (s2 := if u =? 0 then _ else _).
-  assert (Hgh : gh s2 = gh s) by (unfold s2; destruct (u =? 0); reflexivity).
-  assert (Hq : q s2 = []) by (unfold s2; destruct (u =? 0); reflexivity).
-  destruct rem as [|p rem].
-  - destruct ((u =? 0) && wants_cancel (waiters (set_q s [] u))).
-    + apply run_func0_post. cbn [load_gh gh set_gh q]. rewrite Hq, Hgh. exact HC1.
-    + unfold Post; cbn [fst snd]. split; [reflexivity|]. split; [|apply no_starts].
-      unfold prods. cbn [load_gh gh set_gh set_dm q dm cur_ins dprods]. rewrite Hq, Hgh. exact HC1.
-  - unfold Post; cbn [fst snd]. split; [reflexivity|]. split; [|apply no_starts].
-    unfold prods. cbn [load_gh gh set_gh set_dm q dm cur_ins dprods]. rewrite Hq, Hgh.
-    destruct ((u =? 0) && wants_cancel _); cbn [got_of]; rewrite app_nil_r; exact HC1.
-Qed.
-
-Lemma start_round_post s : Core (gh s) [] (q s) -> Post (start_round s).
-Proof.
-  intros HC. unfold start_round. destruct (q s) as [|p r] eqn:Eq.
-  - unfold Post; cbn [fst snd]. split; [reflexivity|]. split; [|apply no_starts].
-    unfold prods; cbn. rewrite Eq. exact HC.
-  - apply continue_round_post. cbn [gh set_event set_q q]. eapply Core_perm; [|exact HC].
-    intros p0. rewrite in_app_iff. cbn. tauto.
-Qed.
-
-Lemma run_func_post s ins : Core (gh s) ins (q s) -> Post (run_func s ins).
-Proof.
-  intros HC. unfold run_func. destruct ins as [|x r].
-  - pose proof (release_facts s) as F. destruct (release s) as [s1 o1]. cbn [fst snd] in F.
-    destruct F as (F1 & F2 & F3 & F4 & F5 & F6 & F7).
-    assert (HC1 : Core (gh s1) [] (q s1)) by (rewrite F2; eapply Core_ext; eauto).
-    pose proof (start_round_post s1 HC1) as P. unfold end_round. destruct (start_round s1) as [s2 o2].
-    destruct P as (P1 & P2 & P3). unfold Post, starts_ok in *; cbn [fst snd] in *.
-    split; [exact P1|]. split; [exact P2|]. intros c set t Hin. apply in_app_or in Hin as [Hin|Hin]; [exfalso; eapply F7; eauto|eapply P3; eauto].
-  - unfold Post; cbn [fst snd]. split; [reflexivity|]. split.
-    + unfold prods; cbn. rewrite app_nil_r. exact HC.
-    + intros c set t [H|[]]. inversion H; subst. apply (c_ins _ _ _ HC).
 Qed.
 
 Lemma load_all_one p :
   load_all [p] = if p_fin p then ([], p_yields p ++ [], [pid p]) else ([p_wait p], p_yields p ++ [], []).
 Proof. cbn. destruct (p_fin p); reflexivity. Qed.
-
-Lemma load_one_post s ins p : Core (gh s) ins (q s ++ [p]) -> Post (load_one s ins p).
-Proof.
-  intros HC. unfold load_one.
-  pose proof (load_all_one p) as El.
-  destruct (p_fin p).
-  - pose proof (Core_load _ _ _ _ _ _ _ HC El) as HC1. rewrite app_nil_r in HC1.
-    apply continue_round_post. cbn [load_gh gh set_gh set_q q]. exact HC1.
-  - pose proof (Core_load _ _ _ _ _ _ _ HC El) as HC1. rewrite app_nil_r in HC1.
-    unfold Post; cbn [fst snd]. split; [reflexivity|]. split; [|apply no_starts].
-    unfold prods. cbn [load_gh gh set_gh set_dm q dm cur_ins dprods]. exact HC1.
-Qed.
-
-Lemma after_gather_post s ins g : Core (gh s) ins (q s ++ got_of g) -> Post (after_gather s ins g).
-Proof.
-  intros HC. destruct g; cbn [after_gather got_of] in *; rewrite ?app_nil_r in HC.
-  - unfold Post; cbn [fst snd]. split; [reflexivity|]. split; [|apply no_starts].
-    unfold prods; cbn. rewrite app_nil_r. exact HC.
-  - apply load_one_post; exact HC.
-  - apply run_func_post; exact HC.
-  - apply run_func_post; exact HC.
-Qed.
-
-Lemma stay_post s : is_dead s = false -> Inv s -> Post (s, []).
-Proof. intros Hd HI. unfold Post; cbn [fst snd]. split; [exact Hd|]. split; [exact (HI Hd)|apply no_starts]. Qed.
-
-Lemma on_put_post s : is_dead s = false -> Inv s -> Post (on_put s).
-Proof.
-  intros Hd HI. specialize (HI Hd). unfold prods in HI. unfold on_put.
-  destruct (dm s) eqn:Ed; cbn [cur_ins dprods] in HI; rewrite ?app_nil_r in HI.
-  - apply start_round_post; exact HI.
-  - destruct g; try (apply stay_post; [exact Hd|intros _; unfold prods; rewrite Ed; exact HI]).
-    destruct (q s) as [|p r] eqn:Eq; [apply stay_post; [exact Hd|intros _; unfold prods; rewrite Ed, Eq; exact HI]|].
-    unfold Post; cbn [fst snd]. split; [reflexivity|]. split; [|apply no_starts].
-    unfold prods. cbn [gh set_dm set_q q dm cur_ins dprods got_of].
-    eapply Core_perm; [|exact HI]. intros p0. cbn [got_of]. rewrite !in_app_iff. cbn. tauto.
-  - destruct (q s) as [|p r] eqn:Eq; [apply stay_post; [exact Hd|intros _; unfold prods; rewrite Ed, Eq; exact HI]|].
-    apply load_one_post. cbn [gh set_q q]. eapply Core_perm; [|exact HI]. intros p0. rewrite in_app_iff. cbn. tauto.
-  - apply stay_post; [exact Hd|intros _; unfold prods; rewrite Ed; exact HI].
-  - apply stay_post; [exact Hd|intros _; unfold prods; rewrite Ed; rewrite app_nil_r; exact HI].
-  - unfold is_dead in Hd. rewrite Ed in Hd. discriminate.
-Qed.
-
-Lemma do_put_post s p k c : is_dead s = false -> Inv s -> Post (do_put s p k c).
-Proof.
-  intros Hd HI. unfold do_put. destruct (existsb (Nat.eqb p) (seen s)); [apply stay_post; assumption|].
-  apply on_put_post.
-  - destruct c; exact Hd.
-  - intros _. specialize (HI Hd). unfold prods in *.
-    assert (HC : Core (gh_tie (gh_offer (gh s) (map (fun x => (p, x)) (imm_args k)) (now s)) (tie_now s))
-                      (cur_ins (dm s)) ((q s ++ [mk_prod p k]) ++ dprods (dm s))).
-    { eapply Core_perm; [|apply Core_put; exact HI]. intros p0. rewrite !in_app_iff. tauto. }
-    destruct c; exact HC.
-Qed.
 
 Lemma has_open_ex n ps : has_open n ps = true -> exists p, In p ps /\ (pid p =? n) && accepts p = true.
 Proof. unfold has_open. rewrite existsb_exists. auto. Qed.
@@ -415,10 +303,150 @@ Proof.
     + destruct (has_open_ex _ _ H) as (p0 & Hin & E). exists p0. split; [|exact E]. cbn. rewrite !in_app_iff. auto.
 Qed.
 
-Lemma do_feed_post s n a : is_dead s = false -> Inv s -> Post (do_feed s n a).
+Lemma perm_snoc {A} (p : A) r : Permutation (p :: r) (r ++ [p]).
+Proof. apply Permutation_cons_append. Qed.
+Lemma perm_mid {A} (a b c : list A) : Permutation ((a ++ b) ++ c) ((a ++ c) ++ b).
+Proof. rewrite <- !app_assoc. apply Permutation_app_head, Permutation_app_comm. Qed.
+
+Section Skeleton.
+  Variable P : list nat -> ghost -> list nat -> list prod -> Prop.   (* pids used so far, ghost, input set, producers held *)
+  Variable fc_ok : bool.     (* may FnOkThenFClear (a foreign clear inside the set/test window) occur? *)
+  Hypothesis P_perm : forall sn g ins ps ps', Permutation ps ps' -> P sn g ins ps -> P sn g ins ps'.
+  Hypothesis P_load : forall sn g ins ps1 ps rem ys fs,
+    P sn g ins (ps1 ++ ps) -> load_all ps = (rem, ys, fs) -> P sn (gh_load g ys fs) (set_addl ys ins) (ps1 ++ rem).
+  Hypothesis P_deliver : forall sn g ins ps, P sn g ins ps -> P sn (gh_deliver g ins) [] ps.
+  Hypothesis P_deliver_keep : fc_ok = true -> forall sn g ins ps, P sn g ins ps -> P sn (gh_deliver g ins) ins ps.
+  Hypothesis P_put : forall sn g ins ps p k t b,
+    P sn g ins ps -> existsb (Nat.eqb p) sn = false ->
+    P (sn ++ [p]) (gh_tie (gh_offer g (map (fun x => (p, x)) (imm_args k)) t) b) ins (ps ++ [mk_prod p k]).
+  Hypothesis P_feed : forall sn g ins ps n a,
+    P sn g ins ps -> (exists p, In p ps /\ (pid p =? n) && accepts p = true) ->
+    P sn (gh_offer1 g (map (fun x => (n, x)) (arg_of a))) ins (map (feed_if n a) ps).
+  Hypothesis P_ext : forall sn g g' ins ps,
+    g_offered g' = g_offered g -> g_loaded g' = g_loaded g -> g_delivered g' = g_delivered g ->
+    P sn g ins ps -> P sn g' ins ps.
+  Hypothesis P_ins : forall sn g ins ps, P sn g ins ps -> incl ins (off g).
+
+  Definition InvP (s : state) : Prop := is_dead s = false -> P (seen s) (gh s) (cur_ins (dm s)) (prods s).
+  Definition Post (r : state * list obs) : Prop :=
+    is_dead (fst r) = false /\ P (seen (fst r)) (gh (fst r)) (cur_ins (dm (fst r))) (prods (fst r)) /\ starts_ok r.
+
+Lemma run_func0_post s ins : P (seen s) (gh s) ins (q s) -> Post (run_func0 s ins).
+Proof.
+  intros HC. unfold run_func0. destruct ins as [|x r].
+  - pose proof (release_facts s) as F. destruct (release s) as [s1 o]. cbn [fst snd] in F.
+    destruct F as (F1 & F2 & F3 & F4 & F5 & F6 & F7 & F8).
+    unfold Post; cbn [fst snd]. split; [reflexivity|]. split.
+    + unfold prods; cbn. rewrite app_nil_r, F2, F8. eapply P_ext; eauto.
+    + intros c set t H. exfalso. eapply F7; eauto.
+  - unfold Post; cbn [fst snd]. split; [reflexivity|]. split.
+    + unfold prods; cbn. rewrite app_nil_r. exact HC.
+    + intros c set t [H|[]]. inversion H; subst. apply (P_ins _ _ _ _ HC).
+Qed.
+
+Lemma continue_round_post s ins ld : P (seen s) (gh s) ins (q s ++ ld) -> Post (continue_round s ins ld).
+Proof.
+  intros HC. unfold continue_round.
+  set (u := unfinished s - length (q s)).
+  destruct (load_all (ld ++ q s)) as [[rem ys] fs] eqn:El.
+  assert (HC1 : P (seen s) (gh_load (gh s) ys fs) (set_addl ys ins) rem).
+  { apply (P_load (seen s) (gh s) ins [] (ld ++ q s) rem ys fs); [|exact El].
+    cbn [app]. eapply P_perm; [|exact HC]. apply Permutation_app_comm. }
+  set (s2 := if u =? 0 then _ else _).
+  assert (Hgh : gh s2 = gh s) by (unfold s2; destruct (u =? 0); reflexivity).
+  assert (Hq : q s2 = []) by (unfold s2; destruct (u =? 0); reflexivity).
+  assert (Hsn : seen s2 = seen s) by (unfold s2; destruct (u =? 0); reflexivity).
+  destruct rem as [|p rem].
+  - destruct ((u =? 0) && wants_cancel (waiters (set_q s [] u))).
+    + apply run_func0_post. cbn [load_gh gh set_gh q seen]. rewrite Hq, Hgh, Hsn. exact HC1.
+    + unfold Post; cbn [fst snd]. split; [reflexivity|]. split; [|apply no_starts].
+      unfold prods. cbn [load_gh gh set_gh set_dm q dm cur_ins dprods seen]. rewrite Hq, Hgh, Hsn. exact HC1.
+  - unfold Post; cbn [fst snd]. split; [reflexivity|]. split; [|apply no_starts].
+    unfold prods. cbn [load_gh gh set_gh set_dm q dm cur_ins dprods seen]. rewrite Hq, Hgh, Hsn.
+    destruct ((u =? 0) && wants_cancel _); cbn [got_of]; rewrite app_nil_r; exact HC1.
+Qed.
+
+Lemma start_round_post s : P (seen s) (gh s) [] (q s) -> Post (start_round s).
+Proof.
+  intros HC. unfold start_round. destruct (q s) as [|p r] eqn:Eq.
+  - unfold Post; cbn [fst snd]. split; [reflexivity|]. split; [|apply no_starts].
+    unfold prods; cbn. rewrite Eq. exact HC.
+  - apply continue_round_post. cbn [gh set_event set_q q]. eapply P_perm; [|exact HC]. apply perm_snoc.
+Qed.
+
+Lemma run_func_post s ins : P (seen s) (gh s) ins (q s) -> Post (run_func s ins).
+Proof.
+  intros HC. unfold run_func. destruct ins as [|x r].
+  - pose proof (release_facts s) as F. destruct (release s) as [s1 o1]. cbn [fst snd] in F.
+    destruct F as (F1 & F2 & F3 & F4 & F5 & F6 & F7 & F8).
+    assert (HC1 : P (seen s1) (gh s1) [] (q s1)) by (rewrite F2, F8; eapply P_ext; eauto).
+    pose proof (start_round_post s1 HC1) as Q. unfold end_round. destruct (start_round s1) as [s2 o2].
+    destruct Q as (P1 & P2 & P3). unfold Post, starts_ok in *; cbn [fst snd] in *.
+    split; [exact P1|]. split; [exact P2|]. intros c set t Hin. apply in_app_or in Hin as [Hin|Hin]; [exfalso; eapply F7; eauto|eapply P3; eauto].
+  - unfold Post; cbn [fst snd]. split; [reflexivity|]. split.
+    + unfold prods; cbn. rewrite app_nil_r. exact HC.
+    + intros c set t [H|[]]. inversion H; subst. apply (P_ins _ _ _ _ HC).
+Qed.
+
+Lemma load_one_post s ins p : P (seen s) (gh s) ins (q s ++ [p]) -> Post (load_one s ins p).
+Proof.
+  intros HC. unfold load_one.
+  pose proof (load_all_one p) as El.
+  destruct (p_fin p).
+  - pose proof (P_load _ _ _ _ _ _ _ _ HC El) as HC1. rewrite app_nil_r in HC1.
+    apply continue_round_post. cbn [load_gh gh set_gh set_q q]. exact HC1.
+  - pose proof (P_load _ _ _ _ _ _ _ _ HC El) as HC1. rewrite app_nil_r in HC1.
+    unfold Post; cbn [fst snd]. split; [reflexivity|]. split; [|apply no_starts].
+    unfold prods. cbn [load_gh gh set_gh set_dm q dm cur_ins dprods]. exact HC1.
+Qed.
+
+Lemma after_gather_post s ins g : P (seen s) (gh s) ins (q s ++ got_of g) -> Post (after_gather s ins g).
+Proof.
+  intros HC. destruct g; cbn [after_gather got_of] in *; rewrite ?app_nil_r in HC.
+  - unfold Post; cbn [fst snd]. split; [reflexivity|]. split; [|apply no_starts].
+    unfold prods; cbn. rewrite app_nil_r. exact HC.
+  - apply load_one_post; exact HC.
+  - apply run_func_post; exact HC.
+  - apply run_func_post; exact HC.
+Qed.
+
+Lemma stay_post s : is_dead s = false -> InvP s -> Post (s, []).
+Proof. intros Hd HI. unfold Post; cbn [fst snd]. split; [exact Hd|]. split; [exact (HI Hd)|apply no_starts]. Qed.
+
+Lemma on_put_post s : is_dead s = false -> InvP s -> Post (on_put s).
+Proof.
+  intros Hd HI. specialize (HI Hd). unfold prods in HI. unfold on_put.
+  destruct (dm s) eqn:Ed; cbn [cur_ins dprods] in HI; rewrite ?app_nil_r in HI.
+  - apply start_round_post; exact HI.
+  - destruct g; try (apply stay_post; [exact Hd|intros _; unfold prods; rewrite Ed; exact HI]).
+    destruct (q s) as [|p r] eqn:Eq; [apply stay_post; [exact Hd|intros _; unfold prods; rewrite Ed, Eq; exact HI]|].
+    unfold Post; cbn [fst snd]. split; [reflexivity|]. split; [|apply no_starts].
+    unfold prods. cbn [gh set_dm set_q q dm cur_ins dprods got_of].
+    eapply P_perm; [|exact HI]. cbn [got_of app]. rewrite app_nil_r.
+    etransitivity; [apply perm_snoc|]. rewrite <- app_assoc. reflexivity.
+  - destruct (q s) as [|p r] eqn:Eq; [apply stay_post; [exact Hd|intros _; unfold prods; rewrite Ed, Eq; exact HI]|].
+    apply load_one_post. cbn [gh set_q q]. eapply P_perm; [|exact HI]. apply perm_snoc.
+  - apply stay_post; [exact Hd|intros _; unfold prods; rewrite Ed; exact HI].
+  - apply stay_post; [exact Hd|intros _; unfold prods; rewrite Ed; rewrite app_nil_r; exact HI].
+  - unfold is_dead in Hd. rewrite Ed in Hd. discriminate.
+Qed.
+
+Lemma do_put_post s p k c : is_dead s = false -> InvP s -> Post (do_put s p k c).
+Proof.
+  intros Hd HI. unfold do_put. destruct (existsb (Nat.eqb p) (seen s)) eqn:Efresh; [apply stay_post; assumption|].
+  apply on_put_post.
+  - destruct c; exact Hd.
+  - intros _. specialize (HI Hd). unfold prods in *.
+    assert (HC : P (seen s ++ [p]) (gh_tie (gh_offer (gh s) (map (fun x => (p, x)) (imm_args k)) (now s)) (tie_now s))
+                      (cur_ins (dm s)) ((q s ++ [mk_prod p k]) ++ dprods (dm s))).
+    { eapply P_perm; [|apply P_put; [exact HI|exact Efresh]]. apply perm_mid. }
+    destruct c; exact HC.
+Qed.
+
+Lemma do_feed_post s n a : is_dead s = false -> InvP s -> Post (do_feed s n a).
 Proof.
   intros Hd HI. unfold do_feed. destruct (open_here s n) eqn:Eo; cbn [negb]; [|apply stay_post; assumption].
-  specialize (HI Hd). pose proof (Core_feed _ _ _ n a HI (open_here_ex _ _ Eo)) as HC.
+  specialize (HI Hd). pose proof (P_feed _ _ _ _ n a HI (open_here_ex _ _ Eo)) as HC.
   unfold prods in HC. rewrite map_app in HC.
   destruct (dm s) eqn:Ed; cbn [cur_ins dprods] in HC.
   - unfold Post; cbn [fst snd]. split; [exact Hd|]. split; [|apply no_starts].
@@ -427,14 +455,14 @@ Proof.
     rewrite map_app in HC.
     assert (Hg : map (feed_if n a) (got_of g) = got_of (feed_get n a g)) by (destruct g; reflexivity).
     rewrite Hg in HC.
-    assert (HC1 : Core (gh_load (gh_offer1 (gh s) (map (fun x => (n, x)) (arg_of a))) ys fs) (set_addl ys ins)
+    assert (HC1 : P (seen s) (gh_load (gh_offer1 (gh s) (map (fun x => (n, x)) (arg_of a))) ys fs) (set_addl ys ins)
                        ((map (feed_if n a) (q s) ++ got_of (feed_get n a g)) ++ rem)).
-    { eapply Core_load; [|exact El]. eapply Core_perm; [|exact HC]. intros p0. rewrite !in_app_iff. tauto. }
+    { eapply P_load; [|exact El]. eapply P_perm; [|exact HC]. rewrite app_assoc. apply perm_mid. }
     destruct rem as [|p rem].
     + apply after_gather_post. cbn [load_gh gh set_gh set_q q]. rewrite app_nil_r in HC1. exact HC1.
     + unfold Post; cbn [fst snd]. split; [reflexivity|]. split; [|apply no_starts].
       unfold prods. cbn [load_gh gh set_gh set_dm set_q q dm cur_ins dprods].
-      eapply Core_perm; [|exact HC1]. intros p0. rewrite !in_app_iff. tauto.
+      eapply P_perm; [|exact HC1]. rewrite (app_assoc _ (p :: rem)). apply perm_mid.
   - unfold Post; cbn [fst snd]. split; [exact Hd|]. split; [|apply no_starts].
     unfold prods; cbn [gh set_gh set_q q dm]. rewrite Ed. exact HC.
   - destruct ((pid p =? n) && accepts p) eqn:E.
@@ -447,15 +475,15 @@ Proof.
   - unfold is_dead in Hd. rewrite Ed in Hd. discriminate.
 Qed.
 
-Lemma wait_core_post s w c : is_dead s = false -> Inv s -> Post (wait_core s w c).
+Lemma wait_core_post s w c : is_dead s = false -> InvP s -> Post (wait_core s w c).
 Proof.
   intros Hd HI. pose proof (HI Hd) as HC. unfold prods in HC. unfold wait_core.
-  assert (Stay : forall s', dm s' = dm s -> q s' = q s ->
+  assert (Stay : forall s', dm s' = dm s -> q s' = q s -> seen s' = seen s ->
                  g_offered (gh s') = g_offered (gh s) -> g_loaded (gh s') = g_loaded (gh s) ->
                  g_delivered (gh s') = g_delivered (gh s) -> forall o, (forall c0 set t, ~ In (FnStart c0 set t) o) -> Post (s', o)).
-  { intros s' E1 E2 E3 E4 E5 o Ho. unfold Post; cbn [fst snd]. split; [unfold is_dead; rewrite E1; exact Hd|].
+  { intros s' E1 E2 E0 E3 E4 E5 o Ho. unfold Post; cbn [fst snd]. split; [unfold is_dead; rewrite E1; exact Hd|].
     split; [|intros c0 set t Hin; exfalso; eapply Ho; eauto].
-    unfold prods. rewrite E1, E2. eapply Core_ext; eauto. }
+    unfold prods. rewrite E1, E2, E0. eapply P_ext; eauto. }
   assert (No : forall c0 set t, ~ In (FnStart c0 set t) []) by (intros ? ? ? []).
   destruct (unfinished s =? 0); [|apply Stay; auto].
   destruct (dm s) eqn:Ed; cbn [cur_ins dprods] in HC.
@@ -471,33 +499,33 @@ Proof.
   - destruct (evset s); apply Stay; auto. intros c0 set t [H|[]]; discriminate.
 Qed.
 
-Lemma do_wait_post s w c : is_dead s = false -> Inv s -> Post (do_wait s w c).
+Lemma do_wait_post s w c : is_dead s = false -> InvP s -> Post (do_wait s w c).
 Proof.
   intros Hd HI. unfold do_wait. destruct (existsb (Nat.eqb w) (wseen s)); [apply stay_post; assumption|].
   apply wait_core_post; [exact Hd|]. intros _. specialize (HI Hd). unfold prods in *. cbn.
-  eapply Core_ext; [| | |exact HI]; reflexivity.
+  eapply P_ext; [| | |exact HI]; reflexivity.
 Qed.
 
-Lemma do_advance_post s dt : is_dead s = false -> Inv s -> Post (do_advance s dt).
+Lemma do_advance_post s dt : is_dead s = false -> InvP s -> Post (do_advance s dt).
 Proof.
   intros Hd HI. pose proof (HI Hd) as HC. unfold prods in HC. unfold do_advance.
-  assert (Stay : forall s', dm s' = dm s -> q s' = q s -> gh s' = gh s -> Post (s', [])).
-  { intros s' E1 E2 E3. unfold Post; cbn [fst snd]. split; [unfold is_dead; rewrite E1; exact Hd|].
-    split; [|apply no_starts]. unfold prods. rewrite E1, E2, E3. exact HC. }
+  assert (Stay : forall s', dm s' = dm s -> q s' = q s -> gh s' = gh s -> seen s' = seen s -> Post (s', [])).
+  { intros s' E1 E2 E3 E0. unfold Post; cbn [fst snd]. split; [unfold is_dead; rewrite E1; exact Hd|].
+    split; [|apply no_starts]. unfold prods. rewrite E1, E2, E3, E0. exact HC. }
   destruct (dm s) as [|ins ld g|ins d|ins p|ins|] eqn:Ed; cbn [cur_ins dprods] in HC; try (apply Stay; cbn; auto).
   - destruct g as [d|p| |]; try (apply Stay; cbn; auto).
     destruct (d <=? now s + dt)%N; [|apply Stay; cbn; auto].
     unfold Post; cbn [fst snd]. split; [reflexivity|]. split; [|apply no_starts].
     unfold prods. cbn. cbn in HC. exact HC.
   - destruct (d <=? now s + dt)%N; [|apply Stay; cbn; auto].
-    match goal with |- context [run_func ?a ?b] => pose proof (run_func_post a b) as P; destruct (run_func a b) as [s1 o] end.
-    rewrite app_nil_r in HC. specialize (P HC). destruct P as (P1 & P2 & P3).
+    match goal with |- context [run_func ?a ?b] => pose proof (run_func_post a b) as Q; destruct (run_func a b) as [s1 o] end.
+    rewrite app_nil_r in HC. specialize (Q HC). destruct Q as (P1 & P2 & P3).
     unfold Post, starts_ok in *; cbn [fst snd] in *. split; [exact P1|]. split; [exact P2|exact P3].
 Qed.
 
-Lemma do_fn_end_post s ok fc : is_dead s = false -> Inv s -> Post (do_fn_end s ok fc).
+Lemma do_fn_end_post s ok fc : (fc = true -> fc_ok = true) -> is_dead s = false -> InvP s -> Post (do_fn_end s ok fc).
 Proof.
-  intros Hd HI. pose proof (HI Hd) as HC. unfold prods in HC. unfold do_fn_end.
+  intros Hfc Hd HI. pose proof (HI Hd) as HC. unfold prods in HC. unfold do_fn_end.
   destruct (dm s) eqn:Ed; try (apply stay_post; assumption).
   cbn [cur_ins dprods] in HC. rewrite app_nil_r in HC.
   assert (Cons : forall r o0, Post r -> (forall c set t, ~ In (FnStart c set t) o0) ->
@@ -506,49 +534,83 @@ Proof.
     split; [exact P1|]. split; [exact P2|]. intros c set t Hin. apply in_app_or in Hin as [Hin|Hin]; [exfalso; eapply Ho; eauto|eauto]. }
   destruct ok.
   - match goal with |- context [release ?x] => pose proof (release_facts x) as F; destruct (release x) as [s2 o1] end.
-    cbn [fst snd] in F. destruct F as (F1 & F2 & F3 & F4 & F5 & F6 & F7).
-    cbn [gh set_gh set_calls q] in F2, F4, F5, F6.
+    cbn [fst snd] in F. destruct F as (F1 & F2 & F3 & F4 & F5 & F6 & F7 & F8).
+    cbn [gh set_gh set_calls q seen] in F2, F4, F5, F6, F8.
     assert (Ho : forall c set t, ~ In (FnStart c set t) ([FnEnd (callno s - 1) true ins] ++ o1)).
     { intros c set t Hin. apply in_app_or in Hin as [[H|[]]|Hin]; [discriminate|eapply F7; eauto]. }
     destruct fc.
-    + pose proof (continue_round_post (set_event s2 false) ins []) as P.
-      cbn [gh set_event q] in P. rewrite app_nil_r, F2 in P.
-      assert (HC1 : Core (gh s2) ins (q s)).
-      { eapply Core_ext; [exact F4|exact F5|exact F6|]. apply Core_deliver; [exact HC|apply incl_refl]. }
-      specialize (P HC1). specialize (Cons _ _ P Ho).
+    + pose proof (continue_round_post (set_event s2 false) ins []) as Q.
+      cbn [gh set_event q seen] in Q. rewrite app_nil_r, F2 in Q.
+      assert (HC1 : P (seen s2) (gh s2) ins (q s)).
+      { rewrite F8. eapply P_ext; [exact F4|exact F5|exact F6|]. apply P_deliver_keep; [apply Hfc; reflexivity|exact HC]. }
+      specialize (Q HC1). specialize (Cons _ _ Q Ho).
       destruct (continue_round (set_event s2 false) ins []) as [s3 o2]. rewrite app_assoc. exact Cons.
-    + pose proof (start_round_post s2) as P. rewrite F2 in P.
-      assert (HC1 : Core (gh s2) [] (q s)).
-      { eapply Core_ext; [exact F4|exact F5|exact F6|]. apply Core_deliver; [exact HC|]. intros x []. }
-      specialize (P HC1). specialize (Cons _ _ P Ho). unfold end_round.
+    + pose proof (start_round_post s2) as Q. rewrite F2 in Q.
+      assert (HC1 : P (seen s2) (gh s2) [] (q s)).
+      { rewrite F8. eapply P_ext; [exact F4|exact F5|exact F6|]. apply P_deliver; exact HC. }
+      specialize (Q HC1). specialize (Cons _ _ Q Ho). unfold end_round.
       destruct (start_round s2) as [s3 o2]. rewrite app_assoc. exact Cons.
-  - pose proof (continue_round_post s ins []) as P. rewrite app_nil_r in P. specialize (P HC).
+  - pose proof (continue_round_post s ins []) as Q. rewrite app_nil_r in Q. specialize (Q HC).
     assert (Ho : forall c set t, ~ In (FnStart c set t) [FnEnd (callno s - 1) false ins]).
     { intros c set t [H|[]]; discriminate. }
-    specialize (Cons _ _ P Ho). destruct (continue_round s ins []) as [s1 o1]. exact Cons.
+    specialize (Cons _ _ Q Ho). destruct (continue_round s ins []) as [s1 o1]. exact Cons.
 Qed.
 
 (* every macro step preserves the invariant, and every set it hands to the
    function consists of arguments handed to the buffer *)
+Lemma step_postP s e :
+  (e = FnOkThenFClear -> fc_ok = true) -> InvP s -> InvP (fst (step s e)) /\ starts_ok (step s e).
+Proof.
+  intros Hfc HI. unfold step. destruct (is_dead s) eqn:Hd.
+  - split; [exact HI|apply no_starts].
+  - assert (Q : forall r, Post r -> InvP (fst r) /\ starts_ok r) by (intros r (P1 & P2 & P3); split; [intros _; exact P2|exact P3]).
+    destruct e.
+    + apply Q, do_put_post; assumption.
+    + apply Q, do_feed_post; assumption.
+    + apply Q, do_feed_post; assumption.
+    + apply Q, do_feed_post; assumption.
+    + apply Q, do_advance_post; assumption.
+    + apply Q, do_wait_post; assumption.
+    + apply Q, do_fn_end_post; try assumption. discriminate.
+    + apply Q, do_fn_end_post; try assumption. discriminate.
+    + split; [intros H; discriminate|]. intros c set t [H|[]]; discriminate.
+    + apply Q. unfold Post; cbn [fst snd]. split; [exact Hd|]. split; [|apply no_starts].
+      specialize (HI Hd). unfold prods in *. cbn. exact HI.
+    + apply Q, do_put_post; assumption.
+    + apply Q, do_fn_end_post; try assumption. intros _. apply Hfc. reflexivity.
+Qed.
+
+Definition fc_allowed (evs : list event) : Prop := In FnOkThenFClear evs -> fc_ok = true.
+
+Lemma run_invP evs : forall s, fc_allowed evs -> InvP s -> InvP (fst (run s evs)).
+Proof.
+  induction evs as [|e r IH]; intros s Hfc HI; cbn [run]; [exact HI|].
+  destruct (step_postP s e) as [H1 _]; [intros ->; apply Hfc; left; reflexivity|exact HI|].
+  destruct (step s e) as [s1 o]. cbn [fst] in H1.
+  assert (Hfc' : fc_allowed r) by (intros H; apply Hfc; right; exact H).
+  specialize (IH s1 Hfc' H1). destruct (run s1 r). exact IH.
+Qed.
+End Skeleton.
+
+(* ---- instance: Core ---------------------------------------------------------------- *)
+Lemma Core_permP g ins ps ps' : Permutation ps ps' -> Core g ins ps -> Core g ins ps'.
+Proof.
+  intros Hp. apply Core_perm. intros p. split; [apply Permutation_in; exact Hp|apply Permutation_in, Permutation_sym; exact Hp].
+Qed.
+
+Definition Inv (s : state) : Prop := is_dead s = false -> Core (gh s) (cur_ins (dm s)) (prods s).
+
 Lemma step_post s e : Inv s -> Inv (fst (step s e)) /\ starts_ok (step s e).
 Proof.
-  intros HI. unfold step. destruct (is_dead s) eqn:Hd.
-  - split; [exact HI|apply no_starts].
-  - assert (P : forall r, Post r -> Inv (fst r) /\ starts_ok r) by (intros r (P1 & P2 & P3); split; [intros _; exact P2|exact P3]).
-    destruct e.
-    + apply P, do_put_post; assumption.
-    + apply P, do_feed_post; assumption.
-    + apply P, do_feed_post; assumption.
-    + apply P, do_feed_post; assumption.
-    + apply P, do_advance_post; assumption.
-    + apply P, do_wait_post; assumption.
-    + apply P, do_fn_end_post; assumption.
-    + apply P, do_fn_end_post; assumption.
-    + split; [intros H; discriminate|]. intros c set t [H|[]]; discriminate.
-    + apply P. unfold Post; cbn [fst snd]. split; [exact Hd|]. split; [|apply no_starts].
-      specialize (HI Hd). unfold prods in *. cbn. exact HI.
-    + apply P, do_put_post; assumption.
-    + apply P, do_fn_end_post; assumption.
+  apply (step_postP (fun _ => Core) true); auto.
+  - intros _. exact Core_permP.
+  - intros _. exact Core_load.
+  - intros _ g ins ps H. apply Core_deliver; [exact H|]. intros x [].
+  - intros _ _ g ins ps H. apply Core_deliver; [exact H|apply incl_refl].
+  - intros _ g ins ps p k t b H _. apply Core_put; exact H.
+  - intros _. exact Core_feed.
+  - intros _ g g' ins ps E1 E2 E3 H. eapply Core_ext; eauto.
+  - intros _ g ins ps H. apply (c_ins _ _ _ H).
 Qed.
 
 Lemma init_inv T : Inv (init T).
